@@ -60,7 +60,35 @@ def walk_json(x):
         yield x
 
 
+def r_binary_bits(ctx):
+    rid = 'R11.2'
+    ctx.rule(rid, 'binary literal bit order: bits are read front to back, padded on the left with zeros to a whole byte (sub-byte widths), each byte built as byte = (byte << 1) | (bit == \'1\'), bytes pushed in order')
+    fx = ctx.facts()
+    fn = ctx.anchor(fx, 'value::UIntValue::parse_binary')
+    LEN = 'get(ok_or(new(len(as_inner(binary))), BitStringPow2{len(as_inner(binary))}))'
+    src = "chain(take(repeat('0'), saturating_sub(8_usize, %s)), chars(as_inner(binary)))" % LEN
+    facts = {'chain': False, 'bitor1': False, 'bitor2': False, 'cap': False}
+    for kind, p, ret in explore(ctx, fn, max_visits=2, max_paths=3000):
+        if p is None:
+            continue
+        for e in event_calls(p, 'chain'):
+            facts['chain'] = facts['chain'] or S(('call', e[1], e[2])) == src
+        for e in event_calls(p, 'with_capacity'):
+            facts['cap'] = facts['cap'] or S(e[2][0]) == 'div_ceil(%s, 8_usize)' % LEN
+        for key, v in p.env.items():
+            if isinstance(v, tuple) and v[0] == 'bin' and v[1] == 'BitOr':
+                s1 = S(v)
+                if s1 == "BitOr(Shl(0_u8, 1_i32), from(Eq(unwrap(next(%s)), '1')))" % src:
+                    facts['bitor1'] = True
+                if s1.startswith("BitOr(Shl(BitOr(Shl(0_u8, 1_i32), from(Eq(unwrap(next(") and s1.endswith("'1')))") and s1.count('Shl(') == 2:
+                    facts['bitor2'] = True
+    ctx.ob(rid, 'bits:source', facts['chain'], 'bit source = zeros(8 − bit_len, saturating) followed by the characters of the literal in order', fn.where())
+    ctx.ob(rid, 'bits:byte-count', facts['cap'], 'ceil(bit_len / 8) bytes are produced', fn.where())
+    ctx.ob(rid, 'bits:step', facts['bitor1'] and facts['bitor2'], 'each bit is shifted in from the right: byte = (byte << 1) | u8::from(bit == \'1\'), starting from 0', fn.where(), str(facts))
+
+
 def check(ctx):
+    r_binary_bits(ctx)
     ctx.rule('R11.1', 'decision tables of the literal converters (decimal/binary/hex, sub-byte ranges, power-of-two and width tables) equal the reviewed table')
     table = guards.load_table()
     fx = ctx.facts()
